@@ -195,6 +195,24 @@ func c20OneOpt(c *Ctx, en *c20Env, t c20Tree, root string, fl c20Filler, L int, 
 	if !keepTarget {
 		os.Remove(dst)
 	}
+	if !keepTarget && c20History == "" {
+		// the plain interpreter binary (no marker anywhere): the scan must end at
+		// the end of the file and hand over to the normal command line
+		exited := false
+		var herr error
+		restore := tool.VerifSetOS([]string{src}, func(code int) { exited = true }, ioutil.Discard, func(e error) { herr = e })
+		ran := false
+		k, m := Guard(func() { tool.RunPackedBinary() })
+		restore()
+		if k != "" {
+			c.Viol("unpacked-run-"+k, fmt.Sprintf("%s: RunPackedBinary on the plain source binary panics: %s", input, m), input)
+			return
+		}
+		if ran || exited || herr != nil {
+			c.Viol("unpacked-binary-treated-as-packed", fmt.Sprintf("%s: the source binary holds no marker, RunPackedBinary returned %v (exit callback %v, error %v)", input, ran, exited, herr), input)
+			return
+		}
+	}
 	pk := tool.NewCLIPacker()
 	pk.Dir, pk.SourceBinary, pk.TargetBinary = &root, &src, &dst
 	pk.EntryFile = filepath.Join(root, t.entry)
